@@ -12,6 +12,7 @@ import GeoProofs.Index.QBytes
 import GeoProofs.Index.RBytes
 import GeoProofs.Index.RTreeSub
 import GeoProofs.SeriesSearch
+import GeoProofs.SeriesSearchR
 namespace Geo
 
 /-- re-statement (quadtree): see `qtree_search_exact` -/
@@ -43,5 +44,10 @@ theorem C04_quadtree {Î± : Type} [Carrier Î±] [LawfulCarrier Î±] (boxOf : Nat â†
 #print axioms series_search_exact_quadtree
 #print axioms series_search_exact_rtree
 #print axioms segBox_inside_rect
+#print axioms series_search_exact_rtree_dyadic
+#print axioms series_search_exact_dyadic
+#print axioms decF64_encF64
+#print axioms rtree_search_exact_patched
+#print axioms rBuild_good
 
 end Geo
